@@ -29,7 +29,9 @@ def run(ctx):
     ctx.rule('C06.R7', 'decision table symmetric; a == b == base -> Noop (C18)', floor=15)
     ctx.rule('C06.R8', 'fingerprint_path: digest of the file bytes / link target only; type from symlink_metadata', floor=2)
     ctx.rule('C06.R9', 'bisync delete results are not discarded before the entry is dropped from the record', floor=2)
+    ctx.rule('C06.R10', 'every successful non-dry-run exit of run_bisync passes Archive::save', floor=1)
     bs = Bisync(ctx, F, 'C06.R4')
+    bs.every_success_records(ctx, 'C06.R10')
     r1(ctx, F, bs)
     from rules import C02
     # R2: reuse the winner tuple rule under this id
